@@ -37,6 +37,8 @@ def comparable(wn, m, version):
             og['demand_model'] = 'PDA'
             if og.get('required_pressure') is not None and og['required_pressure'] < 0.15:
                 og.pop('required_pressure')      # below EPANET's lower limit (0.1 psi or m): the writer clamps it, with a warning
+        if g == 'quality' and str(og.get('parameter', 'NONE')).upper() != 'TRACE':
+            og.pop('trace_node', None)      # the QUALITY line names a trace node only for a TRACE analysis
         opts[g] = og
     out['options'] = opts
     # a default pattern name that names no pattern means "no pattern" (empty pattern name)
